@@ -19,7 +19,7 @@ ID = "C21"
 RULE = (
     "Hypothesis draws either a grid spec (all families of C19: Cartesian / tensor / structured simplices / mixed "
     "polygons / extruded polyhedra, dims 1-3) or a Cartesian md-grid with 0-3 axis-aligned lattice fractures in 2-d / "
-    "1-2 rectangles in 3-d (X, T, L intersections, fractures touching the boundary; every subdomain of dimension "
+    "1-3 rectangles in 3-d (X, T, L intersections, fractures touching the boundary; every subdomain of dimension "
     "0-3 produced by split_fractures is checked), optionally followed by extract_subgrid of a random cell subset "
     "(connected or not). Oracle: the signed incidence is read from the raw csc arrays into a dense matrix D; "
     "faces with exactly one non-zero in D must equal get_all_boundary_faces() (domain/fracture/tip tags as delivered) "
@@ -33,7 +33,7 @@ RULE = (
     "divergence(0) raises ValueError. Exact integer equality. Non-trivial = a grid with >= 2 cells and an internal "
     "face, or any fractured md-grid; distinct = hash of spec."
 )
-BUDGET = {"quick": {"cases": 2400, "seconds": 40}, "thorough": {"cases": 120000, "seconds": 1200}}
+BUDGET = {"quick": {"cases": 2000, "seconds": 40}, "thorough": {"cases": 120000, "seconds": 1200}}
 TECHNIQUE = "property-based testing (Hypothesis): differential against dense set/matrix algebra on the raw incidence arrays"
 LEVEL_TEXT = ("Exploration: thousands of generated grids per run (all grid families, grids after fracture splitting in "
               "2-d and 3-d including the lower-dimensional fracture and intersection grids, extracted subgrids); every "
@@ -68,6 +68,19 @@ def _spec(draw, tier):
 
 def strategy(tier):
     return _spec(tier)
+
+
+def warmup():
+    """Compile / load the numba kernels used while building grids, before the clock starts."""
+    check({"src": "frac", "frac": {"dim": 3, "nx": [2, 2, 2], "phys": [2.0, 2.0, 2.0],
+                                    "fracs": [{"axis": 0, "pos": 1, "lo": [0, 0], "hi": [2, 2]},
+                                              {"axis": 1, "pos": 1, "lo": [0, 0], "hi": [2, 2]}]},
+           "sub": [0, 1, 2], "qseed": 0})
+    check({"src": "frac", "frac": {"dim": 2, "nx": [2, 2], "phys": [2.0, 2.0],
+                                    "fracs": [{"axis": 0, "pos": 1, "lo": [0], "hi": [2]}]}, "sub": None, "qseed": 0})
+    for kind, dim, n in (("tet", 3, [1, 1, 1]), ("tri", 2, [2, 2]), ("cart", 1, [3])):
+        check({"src": "plain", "grid": {"kind": kind, "dim": dim, "n": n, "phys": [1.0] * dim, "pamp": 0.0, "pseed": 0,
+                                        "affine": None, "rigid": None}, "sub": None, "qseed": 1})
 
 
 _NODES_PER_CELL = {("cart", 1): 2, ("cart", 2): 4, ("cart", 3): 8, ("tensor", 1): 2, ("tensor", 2): 4,
